@@ -683,9 +683,10 @@ impl<T> ValVec32<T> {
             )));
         }
 
-        // SAFETY: Index is bounds checked
+        // SAFETY: Index is bounds checked and the slot holds a live element; assigning through
+        // the pointer drops the old element (ptr::write would leak it)
         unsafe {
-            ptr::write(self.ptr.as_ptr().add(index as usize), value);
+            *self.ptr.as_ptr().add(index as usize) = value;
         }
         Ok(())
     }
